@@ -23,6 +23,11 @@ OrderCases == UNION {{Mk("C19/order/" \o ArgName(a) \o "/" \o st, a, "p.tsh", "o
 NameCases == {Mk("C19/name/" \o Names[n] \o "/" \o Kinds[k] \o "/" \o st \o "/" \o ToString(i), Flat(<<<<"-i", "$IN">>, <<"-o", "$OUT">>>>) \o Flat([j \in 1..Len(TargetLists[i]) |-> <<"-t", TargetLists[i][j]>>]),
                  Names[n], Kinds[k], st, "file", "dir")
               : n \in 1..Len(Names), k \in 1..Len(Kinds), st \in {"empty", "older"}, i \in {1, 3, 4}}
+\* the output name is the input's base name without its LAST extension, whatever characters the name ends in
+MoreNames == <<"tests.tsh", "dash.tsh", "x.tsh.tsh", "build.sh.tsh", "run.bat.tsh", "t.tsh", "s.tsh", "h.tsh", "hhh.tsh", "a..tsh", "bat.tsh", "ss.h.tsh", "UP.TSH", "prog.txt", "tsh.tsh", ".hidden.tsh",
+               "find_windows.tsh", "x.sh", "x.bat", "deep/er/tests.tsh", "with space/hosts.tsh">>
+MoreNameCases == {Mk("C19/name2/" \o MoreNames[n] \o "/" \o ToString(i), Flat(<<<<"-i", "$IN">>, <<"-o", "$OUT">>>>) \o Flat([j \in 1..Len(TargetLists[i]) |-> <<"-t", TargetLists[i][j]>>]),
+                     MoreNames[n], "ok", "empty", "file", "dir") : n \in 1..Len(MoreNames), i \in {3, 4}}
 Bad == <<<<>>, <<"-i", "$IN">>, <<"-i", "$IN", "-o", "$OUT">>, <<"-o", "$OUT", "-t", "bash">>, <<"-i", "$IN", "-t", "bash">>, <<"-i", "$IN", "-o", "$OUT", "-t", "fish">>,
           <<"-i", "$IN", "-o", "$OUT", "-t", "bash", "-t", "fish">>, <<"-i", "$IN", "-o", "$OUT", "-t", "bash", "-x", "y">>, <<"-x", "y", "-i", "$IN", "-o", "$OUT", "-t", "bash">>,
           <<"-i", "$IN", "-o", "$OUT", "-t", "bash", "-t">>, <<"-i", "$IN", "-o", "$OUT", "-t">>, <<"-i", "$IN", "-o", "$OUT", "-t", "bash", "extra">>, <<"-i">>, <<"-t", "bash">>,
@@ -30,5 +35,5 @@ Bad == <<<<>>, <<"-i", "$IN">>, <<"-i", "$IN", "-o", "$OUT">>, <<"-o", "$OUT", "
           <<"-i", "$MISSING", "-i", "$IN", "-o", "$OUT", "-t", "bash">>, <<"-i", "$IN", "-i", "$IN", "-o", "$OUT", "-o", "$OUT", "-t", "batch">>, <<"--in", "$IN", "--out", "$OUT", "--type", "bash", "--type", "batch">>,
           <<"-I", "$IN", "-o", "$OUT", "-t", "bash">>, <<"-i", "$IN", "-o", "$OUT", "-t", "Bash">>, <<"-i", "$IN", "-o", "$OUT", "-t", "">>, <<"-i", "$IN", "-o", "$OUT", "-t", "bash", "-t", "bash", "-t", "bash">>>>
 BadCases == {Mk("C19/bad/" \o ToString(i) \o "/" \o st, Bad[i], "p.tsh", "ok", st, "file", "dir") : i \in 1..Len(Bad), st \in {"empty", "older"}}
-ASSUME ndJsonSerialize("fam.ndjson", SetToSeq(OrderCases \cup NameCases \cup BadCases))
+ASSUME ndJsonSerialize("fam.ndjson", SetToSeq(OrderCases \cup NameCases \cup MoreNameCases \cup BadCases))
 =============================================================================
